@@ -245,6 +245,9 @@ def tissue_spec(ck, case):
         if rng.random() < case["p_flip"]:
             a, b = b, a
         dens = draw_decimal(rng, float(rng.uniform(0.2, 3.0)), 4, ck, digits=int(rng.integers(1, 16))) if rng.random() < case["p_dens"] else None
+        if dens is not None and rng.random() < 0.06:
+            dens = ["0", "0.0", "0.00000"][int(rng.integers(3))]        # a recorded density of exactly zero (a tension-less boundary)
+            ck.count("edges_with_density_zero")
         orig = int(rng.integers(1, 5000)) if rng.random() < case["p_orig"] else None
         edges.append((eid, a, b, dens, orig))
         ends[eid] = (a, b)
